@@ -12,6 +12,7 @@ CONSTANTS
   AllowRst = FALSE
   AllowTClose = FALSE
   AllowCRst = FALSE
+  AllowPause = FALSE
   Planned = FALSE
   Timeout = 2
   MaxNow = 4
